@@ -12,6 +12,7 @@
 
 use std::path::Path;
 use std::sync::{Arc, RwLock};
+use std::sync::atomic::{AtomicBool, Ordering};
 
 
 //------------ LockMode ------------------------------------------------------
@@ -130,18 +131,28 @@ pub trait Handler: Send + Sync + 'static {
 
 static HANDLER: RwLock<Option<Arc<dyn Handler>>> = RwLock::new(None);
 
+/// Whether a handler is installed (lets the hooks skip the lock).
+static INSTALLED: AtomicBool = AtomicBool::new(false);
+
 /// Installs a handler, replacing any previously installed handler.
 pub fn install(handler: Arc<dyn Handler>) {
-    *HANDLER.write().unwrap_or_else(|err| err.into_inner()) = Some(handler);
+    let mut slot = HANDLER.write().unwrap_or_else(|err| err.into_inner());
+    *slot = Some(handler);
+    INSTALLED.store(true, Ordering::SeqCst);
 }
 
 /// Removes the installed handler.
 pub fn uninstall() {
-    *HANDLER.write().unwrap_or_else(|err| err.into_inner()) = None;
+    let mut slot = HANDLER.write().unwrap_or_else(|err| err.into_inner());
+    INSTALLED.store(false, Ordering::SeqCst);
+    *slot = None;
 }
 
 /// Returns the currently installed handler if there is one.
 pub fn handler() -> Option<Arc<dyn Handler>> {
+    if !INSTALLED.load(Ordering::SeqCst) {
+        return None
+    }
     HANDLER.read().unwrap_or_else(|err| err.into_inner()).clone()
 }
 
